@@ -59,7 +59,17 @@ func c08Unit(c *RunCtx, unit int) {
 					for fi, fl := range fails {
 						for mp := 0; mp < 2; mp++ {
 							for si, so := range stor {
+								// wiring order: in every other cell the middleware is built BEFORE the application has set
+								// its final mount path (a router assembled while configuration is still being read); what
+								// counts is the configuration in force when a request is refused
+								finalMount := w.AB.Config.Paths.Mount
+								early := (ui+half+two+reqs+fi+mp+si)%2 == 1
+								if early {
+									w.AB.Config.Paths.Mount = "/not-yet-configured"
+									c.Stats.Count("cells-with-middleware-built-before-mount-was-set")
+								}
 								h := w.AB.LoadClientStateMiddleware(authboss.MountedMiddleware2(w.AB, mp == 1, authboss.MWRequirements(reqs), fl)(w.ProbeHandler("c08")))
+								w.AB.Config.Paths.Mount = finalMount
 								// the deprecated bool-flag wrappers express the same requirements for two of the refusal modes
 								var hOld http.Handler
 								if fi != 2 {
@@ -263,11 +273,11 @@ func c08Judge(w *world.World, rec *world.Rec, uid string, half, two bool, reqs, 
 func init() {
 	register(&Check{
 		ID: "C08", Level: "exploration", Exhaustive: true,
-		Rule:  "complete enumeration of the truth table: session uid {absent, unknown to storage, known} x halfauth mark x 2FA mark {none, twofactor, only the 2FA-setup e-mail authorisation} x requirement bits {0,1,2,3} x refusal mode {404, redirect, 401} x mountPathed (and, for the two refusal modes they can express, the deprecated bool-flag wrappers Middleware/MountedMiddleware against the same table) x Mount {'', '/auth'} x storage outcome {ok, generic error, not-found} x body mode {form, JSON} = 5184 cells, every one executed against the real MountedMiddleware2 behind LoadClientStateMiddleware with hand-made server-side session contents; each cell with the plain target plus 5 seeded targets from a corpus of hostile paths (spaces, non-ASCII, dot segments, double slashes, 300-byte paths, encoded '/', '?', ';') and queries ('&', '=', '%23', '+', repeated keys, bad escapes, 800 bytes, an own redir=). Oracle: handler ran <=> known user & requirements & storage ok; otherwise exactly 404 / 401 / redirect to <Mount>/login whose decoded redir equals path[+mount]?rawquery / 500 on storage error. exhaustive=true refers to the cell table; targets are sampled. Plus 192 cells in which the identity comes from the remember-me cookie in the very request (no stored session; session store answering an empty state object or a nil state): half-authenticated by definition. Two further units fire 8 anonymous clients x 150 (thorough: 1500) requests concurrently at ONE redirect-mode middleware instance behind a real server: each must be redirected with its own target. distinct_nontrivial = distinct (cell → outcome) pairs.",
+		Rule:  "complete enumeration of the truth table: session uid {absent, unknown to storage, known} x halfauth mark x 2FA mark {none, twofactor, only the 2FA-setup e-mail authorisation} x requirement bits {0,1,2,3} x refusal mode {404, redirect, 401} x mountPathed (and, for the two refusal modes they can express, the deprecated bool-flag wrappers Middleware/MountedMiddleware against the same table) x Mount {'', '/auth'} x storage outcome {ok, generic error, not-found} x body mode {form, JSON} = 5184 cells, every one executed against the real MountedMiddleware2 behind LoadClientStateMiddleware with hand-made server-side session contents; each cell with the plain target plus 5 seeded targets from a corpus of hostile paths (spaces, non-ASCII, dot segments, double slashes, 300-byte paths, encoded '/', '?', ';') and queries ('&', '=', '%23', '+', repeated keys, bad escapes, 800 bytes, an own redir=). In every other cell the middleware is constructed while Paths.Mount still holds a placeholder (wiring order); the configuration in force when the request is refused counts. Oracle: handler ran <=> known user & requirements & storage ok; otherwise exactly 404 / 401 / redirect to <Mount>/login whose decoded redir equals path[+mount]?rawquery / 500 on storage error. exhaustive=true refers to the cell table; targets are sampled. Plus 192 cells in which the identity comes from the remember-me cookie in the very request (no stored session; session store answering an empty state object or a nil state): half-authenticated by definition. Two further units fire 8 anonymous clients x 150 (thorough: 1500) requests concurrently at ONE redirect-mode middleware instance behind a real server: each must be redirected with its own target. distinct_nontrivial = distinct (cell → outcome) pairs.",
 		Units: func(t string) int { return 6 },
 		Run:   c08Unit,
 		Floors: func(t string) map[string]int {
-			return map[string]int{"cells": 5184, "deprecated-api-cells": 3456, "remember-cookie-cells": 192, "concurrent-refusals": 2000}
+			return map[string]int{"cells": 5184, "deprecated-api-cells": 3456, "remember-cookie-cells": 192, "concurrent-refusals": 2000, "cells-with-middleware-built-before-mount-was-set": 2000}
 		},
 		Assumptions: []string{"for mountPathed routes the library path.Join()s mount and path; targets whose path that call would normalise (dot segments, '//', trailing '/') are only required to keep their query"},
 	})
